@@ -162,6 +162,7 @@ class World:
                            min_idle_time_before_gc=gc_interval)
         self.pool._loop = self.loop
         self.violations = []
+        self.ever_lent = set()   # connection ids handed to a client since they were opened
 
     def close(self):
         time.monotonic, self.P.config.CONNECT_FAILURE_RETRIES = self._saved
@@ -197,6 +198,7 @@ class World:
             return
         self.pc[c] = 'hold'
         self.lent[c] = conn
+        self.ever_lent.add(conn.id)
         # LendOK, checked at the instant of the hand-over
         others = [o for o in self.clients if o != c and self.lent[o] is conn]
         if others:
@@ -265,8 +267,10 @@ class World:
             _, i, ok = act
             fut, db = self.cq.pop(i - 1)
             if ok:
-                self.nid += 1
+                # connection identities are recycled once closed (smallest free)
+                self.nid = next(i for i in range(1, 10**6) if i not in self.open)
                 conn = Conn(self.nid, db)
+                self.ever_lent.discard(conn.id)
                 self.open[conn.id] = conn
                 fut.set_result(conn)
             else:
